@@ -36,7 +36,7 @@ CHECKS['C08'] = dict(
 	note=CLI_NOTE + ' The chunk size reaches the command through the module-level QueryParams name because the CLI exposes no option; a third of the commands use the public API instead.')
 CHECKS['C09'] = dict(
 	category='exploration', design_ref='DESIGN.md 4.4',
-	technique='deterministic simulation with held ambient configuration: three NumPy CPU-dispatch settings x OpenMP team size/hand-out x chunk size x list length on tie-rich databases, one database object reused across executions with in-memory threshold edits; sort-model invariant checked on every result item',
+	technique='deterministic simulation with held ambient configuration: three NumPy CPU-dispatch settings x OpenMP team size/hand-out x chunk size x list length on tie-rich databases (exact ties, and distinct distances less than 1e-6 apart), one database object reused across executions with in-memory threshold edits; sort-model invariant checked on every result item',
 	text='Every result item of every simulated query execution is checked against the (distance, reference index) sort model, under three NumPy CPU-feature dispatch settings (run groups share one choice sequence), '
 	     'drawn thread counts, hand-outs, chunk sizes and list lengths, on generated databases where tied distances are routine; CSV/JSON agreement through the CLI in a tenth of the runs. No fault is injected (the statement names none). Sampling, not proof.',
 	note=CLI_NOTE + ' Dispatch settings are limited to what NPY_DISABLE_CPU_FEATURES can switch on this CPU.')
@@ -68,7 +68,7 @@ CHECKS['C20'] = dict(
 
 CHECKS['C18'] = dict(
 	category='exploration', design_ref='DESIGN.md 4.7',
-	technique='deterministic simulation of operation histories against a database directory: real commands in-process, session abuse, failing commands, KeyboardInterrupt and SIGKILL at the k-th line event, WAL-mode databases, direct DML through the default session; file hashes, SQL statement monitor and commit behaviour checked after every operation',
+	technique='deterministic simulation of operation histories against a database directory: real commands in-process, session abuse, failing commands, KeyboardInterrupt and SIGKILL at the k-th line event, WAL-mode databases, direct DML through the default session, commit attempted on untouched / DML-only sessions, plain-class session makers requested earlier; file hashes, SQL statement monitor and commit behaviour checked after every operation',
 	text='Seeded histories of 1-10 (thorough 25) operations - commands, library calls, session abuse on the default session obtained four ways, failing commands, commands interrupted or SIGKILLed at a drawn line event - against a generated database directory; '
 	     'after every operation both files must hash to their initial value, no write-class SQL statement may have reached the database, and commit() must have raised. Sampling of histories, not proof.',
 	note=CLI_NOTE + ' Interrupt/kill points are Python line events in gambit frames (sys.settrace), not instructions inside NumPy/h5py/SQLite calls; killed commands run in a child forked from a zygote that never ran OpenMP.')
